@@ -129,6 +129,12 @@ def _dqn_common(name, sc, mod, train, extra_kwargs, uses_target, per=False, has_
         import jax.numpy as jnp
 
         names["linear_schedule"] = lambda total, *a, **k: jnp.ones(int(total)) * eps
+    sw = sc.get("eps_switch", -1)
+    if sw >= 0 and hasattr(mod, "linear_schedule"):
+        import jax.numpy as jnp
+
+        # scheduled exploration: probability 1 before step index sw, 0 from it on
+        names["linear_schedule"] = lambda total, *a, **k: (jnp.arange(int(total)) < sw).astype(jnp.float32)
     # update structure: DQN trains at every step with step > batch_size; the others additionally need
     # step >= learning_starts, train when step % update_frequency == 0 and hard-copy the target when
     # step % target_update_frequency == 0 (the copy needs no batch)
@@ -145,7 +151,7 @@ def _dqn_common(name, sc, mod, train, extra_kwargs, uses_target, per=False, has_
     # DQN has no such parameter (it trains once more than one batch is stored - not judged)
     cfg = base_cfg(name, sc, warmlearn=sc["warm"] if has_warm else -1, warmact=sc["warm"] if has_warm else -1, explore_only_in_warmup=False,
                    policy_probe=True, ret_applicable=True, trained=["q"], targets=["q_target"] if uses_target else [], eplimit=sc.get("eplimit", 0) if has_limit else 0,
-                   epsilon4=-1 if eps is None else int(eps * 4), rules=_rules, pairs=[["q_target", "q"]] if uses_target else [],
+                   epsilon4=-1 if eps is None else int(eps * 4), eps_switch=sw if hasattr(mod, "linear_schedule") else -1, rules=_rules, pairs=[["q_target", "q"]] if uses_target else [],
                    hard_pairs=[["q_target", "q"]] if uses_target else [])
     ret = None if res is None else getattr(res, "global_step", None)
     return finish(rec, name, sc, cfg, returned=ret, final=final_digests(q=q_net, q_target=tgt), error=err)
@@ -295,6 +301,9 @@ def scenarios(tier, seed, routine=None):
             dict(base, label="E0", script=[(3, "term"), (2, "trunc"), (4, "term")], budget=18, start=0, eplimit=0, warm=3, epsilon=0.0),
             dict(base, label="E1", script=[(3, "term"), (2, "trunc")], budget=12, start=0, eplimit=0, warm=2, epsilon=1.0),
         ]
+        if routine in ("dqn", "nature_dqn", "ddqn", "ddqn_per"):
+            # scheduled exploration: epsilon 1 up to step 7, then 0
+            scs.append(dict(base, label="ES", script=[(3, "term"), (2, "trunc"), (4, "term")], budget=16, start=0, eplimit=0, warm=3, eps_switch=7))
     if tier == "thorough":
         scs += [
             dict(base, label="D", script=[(1, "term"), (1, "trunc"), (5, "term")], budget=24, start=2, eplimit=5, warm=7, cap=50),
